@@ -705,7 +705,7 @@ func (c *smtCtx) prelude() string {
 (declare-fun eref_idx (Ref) Int)
 (declare-fun selem (Slice Int) Ref)
 (declare-fun slen (Str) Int)
-(assert (forall ((qv!s Str)) (! (>= (slen qv!s) 0) :pattern ((slen qv!s)))))
+(assert (forall ((qv!s Str)) (! (and (>= (slen qv!s) 0) (<= (slen qv!s) 1099511627776)) :pattern ((slen qv!s)))))
 (define-fun b2i ((b Bool)) Int (ite b 1 0))
 (define-fun pow2 ((n Int)) Int (ite (= n 7) 128 (ite (= n 8) 256 (ite (= n 15) 32768 (ite (= n 16) 65536 (ite (= n 31) 2147483648 (ite (= n 32) 4294967296 (ite (= n 63) 9223372036854775808 (ite (= n 64) 18446744073709551616 0)))))))))
 `)
